@@ -40,9 +40,18 @@ class StartupProp(Prop):
 
         obs = run_startup_case(case)
         obs["ref"] = run_reference(case)
+        if case["timeout"] == 0:
+            # a zero time-out ties with everything that happens in the first instant: only judged when
+            # the start-up needs virtual time to pass
+            obs["ref_nolimit"] = run_reference({**case, "timeout": 10.0 ** 6})
         return obs
 
     def model_request(self, case, impl):
+        if case["timeout"] == 0:
+            # a zero time-out ties with everything that happens in the first instant (and with a
+            # failure there: both errors then surface together); the LTS has no notion of such
+            # ties, so these runs are judged by the monitor only
+            return None
         ev = [dict(e) for e in impl["trace"]]
         if impl["outcome"]["k"] == "timeout":
             # the watchdog firing is internal: it happened before the first component saw cancellation
@@ -142,6 +151,16 @@ def lab_key(l: list[Any]) -> tuple[Any, ...]:
 def monitor_startup(case: dict[str, Any], impl: dict[str, Any]) -> list[tuple[str, str]]:
     """C05 / C06 / C07 stated on the observed trace, with exact virtual times from the reference."""
     fails: list[tuple[str, str]] = []
+    if case["timeout"] == 0:
+        nl = impl["ref_nolimit"]
+        needs_time = nl["outcome"]["k"] == "timeout" or (nl["outcome"]["k"] == "returned" and nl["end"] > 0) or \
+            (nl["outcome"]["k"] == "cse" and nl["outcome"]["phase"] != "creating"
+             and any(t > 0 for l, t in nl["times"] if l[0] == "failed"))
+        if needs_time and impl["outcome"]["k"] != "timeout":
+            fails.append(("C07", f"start_component(timeout=0) on a start-up that needs virtual time ended with {impl['outcome']}, not TimeoutError"))
+        if impl.get("labels_during_flush"):
+            fails.append(("C07", "start-up work continued after start_component(timeout=0) had returned/raised"))
+        return fails
     prog = case["prog"]
     trace = impl["trace"]
     labels = [e["l"] for e in trace]
